@@ -17,7 +17,7 @@ VARIABLE l
 SetOf(s) == {s[i] : i \in 1..Len(s)}
 
 (* ---- discrete ---- *)
-Exp(r) == Ranked(r.d, r.w, r.wk, TRUE, "mid")
+Exp(r) == Ranked(r.d, r.w, r.wk, TRUE, "mid", TRUE)
 DiscreteClauses(r) ==
   IF r.exc # "" THEN << <<"UnexpectedException", FALSE>> >>
   ELSE IF ~r.onlat \/ Len(r.rx) # Len(r.d) \/ Len(r.rpn) # Len(r.d) \/ Len(r.rw) # Len(r.d)
@@ -37,20 +37,21 @@ LawClauses(r) ==
   IF r.exc # "" THEN << <<"UnexpectedException", FALSE>> >>
   ELSE <<
     <<"NormalEquations", r.pos /\ Small(r.g) /\ Small(r.ab) /\ (r.fixed => r.dfix = 0)>>,
-    <<"LawCoverage", r.pos => RequiredVariants(r.wk, r.haszeros) \subseteq
+    <<"LawCoverage", r.pos => RequiredVariants(r.wk, r.haszeros, r.isint) \subseteq
                         {r.variants[i].name : i \in 1..Len(r.variants)}>>,
     <<"WeightScaleInvariant", Law(r, "scaled")>>,
     <<"KeywordEqualsArray", Law(r, "kwarray")>>,
     <<"NoneEqualsOnes", Law(r, "ones")>>,
     <<"ZeroIgnored", Law(r, "zeroweights")>>,
-    <<"OrderInvariant", r.tiecons => Law(r, "perm")>>,
+    <<"OrderInvariant", Law(r, "perm")>>,                 \* all weights, ties included
+    <<"IntegerSameAsFloat", Law(r, "intdtype")>>,         \* int32 / int64 samples = the same numbers as floats
     \* exact bit patterns (22-bit limbs) of (alpha, beta, delta): bits0 = the fit as the first fit of a fresh
     \* process, bitsH = in a fresh process directly after a fixed-delta fit of ANOTHER instance on an equally
     \* long sample, bitsA = in the run's sequence of fits, bitsB = repeated later in another order.
     \* A fit is a function of (instance, data, weights): identical bit for bit.
     <<"CaseOrderIndependent", r.bits0 = r.bitsA /\ r.bitsA = r.bitsB>>,
     <<"EarlierFitDoesNotLeak", r.bits0 = r.bitsH>>,
-    <<"DeltaLocalMin", ~r.fixed => StepOk(r.hq, r.dq) /\ LocalMinD(r.em, r.ep, r.emdef, r.epdef)>>
+    <<"DeltaLocalMin", ~r.fixed => StepOk(r.hq, r.dq) /\ LocalMinD(r.em, r.ep, r.emdef, r.epdef, r.dq)>>
   >>
 
 TableClauses(r) ==
